@@ -327,3 +327,21 @@ impl From<&KademliaPeer> for schema::kademlia::Peer {
         }
     }
 }
+
+#[cfg(feature = "verif")]
+impl<T: Clone> Key<T> {
+    /// Verification hook: key with chosen raw bytes (twin of the `cfg(test)` constructor).
+    pub fn from_bytes_verif(bytes: [u8; 32], preimage: T) -> Key<T> {
+        Key { preimage, bytes: KeyBytes(Array::from(bytes)) }
+    }
+}
+
+#[cfg(feature = "verif")]
+impl KademliaPeer {
+    /// Verification hook: peer entry with a chosen raw key and no addresses.
+    pub fn new_verif(peer: PeerId, key_bytes: [u8; 32], connection: ConnectionType) -> Self {
+        KademliaPeer { key: Key::from_bytes_verif(key_bytes, peer), peer, address_store: AddressStore::new(), connection }
+    }
+    pub fn peer_id_verif(&self) -> PeerId { self.peer }
+    pub fn key_verif(&self) -> &Key<PeerId> { &self.key }
+}
